@@ -4,6 +4,7 @@ from ..check import Slice, Query
 from ..summary import Item, items, is_ok, bv
 
 ID = 'C02'
+ENGINE_B = {'template': 't_nest', 'kinds': ['layout_', 'enum_'], 'max_quick': 8, 'max_thorough': 48}
 BASES = [('u8', 1), ('u16', 2), ('u32', 4), ('u64', 8), ('i8', 1), ('i16', 2), ('i32', 4), ('i64', 8)]
 EXPLANATION = ('Template t_nest: an extern type X with symbolic size/alignment, an inner type I { x: [X; ci] } with optional size/align/'
                'packed, an enum over every integer base, and an outer type O { f0: I | [I; co] | *const I, e: En, _: unknown<pad> } '
@@ -24,18 +25,18 @@ def bounds(tier):
     return {'numeric': 'counts, pads, sizes < 2^6 (quick) / 2^8', 'types': 'extern + inner + enum + outer', 'pointer_size': [4, 8]}
 
 
-def assume(a, ps, vmax, kinds, tier='thorough'):
+def assume(a, ps, vmax, kinds, tier='thorough', zero=False):
     A = [a[0] == ps]
     if tier == 'quick':
         # the inner type's own attributes are exercised by C01/C03; keep size/packed, drop the align attribute here
         A += [a[6] == 0, z3.ULE(a[11], 3) if ps == 4 else z3.UGE(a[11], 4)]
     A.append(z3.Or(*[z3.And(a[2] == al, z3.Or(*[a[1] == al * m for m in (1, 2, 3)])) for al in (1, 2, 4, 8)]))
-    A += [z3.ULT(a[3], vmax), z3.UGE(a[3], 1)]
+    A += [z3.ULT(a[3], vmax)] + ([z3.UGE(a[3], 1)] if not zero else [])
     for i in (4, 6, 8, 12, 15, 17): A.append(z3.ULE(a[i], 1))
     A += [z3.ULT(a[5], vmax * 4), z3.ULE(a[7], 32), z3.ULT(a[13], vmax * 8), z3.ULT(a[16], vmax * 8), z3.ULE(a[18], 32), z3.ULT(a[14], vmax)]
     A.append(z3.Or(*[a[9] == k for k in kinds]))
-    A += [z3.ULT(a[10], 5), z3.UGE(a[10], 1), z3.ULE(a[11], 7)]
-    A.append(z3.Implies(a[9] != 3, a[10] == 1))
+    A += [z3.ULT(a[10], 5), z3.ULE(a[11], 7)] + ([z3.UGE(a[10], 1)] if not zero else [z3.Or(a[3] == 0, a[10] == 0)])
+    A.append(z3.Implies(a[9] != 3, a[10] == (0 if zero else 1)))
     return A
 
 
@@ -46,6 +47,10 @@ def slices(tier, rng):
         # quick: by-value and array embedding at one width each; thorough: everything at both widths
         kinds = [0, 1, 3] if tier != 'quick' else ([0, 3] if ps == 4 else [0, 1])
         out.append(Slice('nest-ps%d' % ps, 't_nest', 19, lambda a, ps=ps, kinds=kinds: assume(a, ps, vmax, kinds, tier),
+                         opts={'summarize': ['gcd'], 'must_reach': ['ok', 'err']}))
+    # zero-length arrays (a named [X; 0] or [I; 0] is a zero-sized field that still has its element's alignment)
+    for ps in ((8,) if tier == 'quick' else (4, 8)):
+        out.append(Slice('nest-zero-ps%d' % ps, 't_nest', 19, lambda a, ps=ps: assume(a, ps, 1 << 3, [0, 3], tier, zero=True) + [a[4] == 0, a[8] == 0],
                          opts={'summarize': ['gcd'], 'must_reach': ['ok', 'err']}))
     return out
 
